@@ -576,9 +576,31 @@ class DatasetProcessor:
         )
         return chr_ids
 
+    def warn_about_skipped_sequences(self, sample, chr_ids):
+        # only the sequences of the reference genome are processed: say which input records are thereby left out
+        known = set(chr_ids)
+        for bam_file in list(map(lambda x: x[0], sample.file_list)):
+            with pysam.AlignmentFile(bam_file, "rb", require_index=True) as bam:
+                skipped = [(st.contig, st.mapped) for st in bam.get_index_statistics()
+                           if st.mapped > 0 and st.contig not in known]
+            if skipped:
+                logger.warning("%s: %d alignments on %d sequence(s) absent from the reference genome will be ignored "
+                               "(they are not counted in the alignment statistics): %s" %
+                               (bam_file, sum(x[1] for x in skipped), len(skipped), ", ".join(x[0] for x in skipped)))
+        if self.gffutils_db:
+            skipped = []
+            for seqid in self.gffutils_db.seqids():
+                if seqid not in known:
+                    skipped.append((seqid, sum(1 for _ in self.gffutils_db.region(seqid=seqid, featuretype="gene"))))
+            if skipped:
+                logger.warning("%d genes of the annotation lie on %d sequence(s) absent from the reference genome; they will "
+                               "be ignored and will not appear in the output annotation: %s" %
+                               (sum(x[1] for x in skipped), len(skipped), ", ".join(x[0] for x in skipped)))
+
     def collect_reads(self, sample):
         logger.info('Collecting read alignments')
         chr_ids = self.get_chr_list()
+        self.warn_about_skipped_sequences(sample, chr_ids)
         info_file = sample.out_raw_file + "_info"
         lock_file = sample.out_raw_file + "_lock"
 
